@@ -8,12 +8,12 @@ RULE = ("Seeded plans: continuous-control routine (DDPG, TD3, TD3+LAP, TD7, MR.Q
         "(symmetric, asymmetric, 1e-3, 1e3, per-dimension different) x exploration noise {0, 0.1, 0.2, 2.0} x noise_clip {0, 0.3, 0.5, 5} x "
         "policies initialised with x30 weights (tanh saturates) x scripted environment. The env checks every received action; the target "
         "critic's probe input yields the smoothed target actions; the PETS reward-model probe yields every CEM candidate. "
-        "Additional plans: PETS with the reward optimum on an action bound (box excluding 0), a single elite and one CEM iteration per MPC call. The target-action monitor (C10.b/c) covers TD3, TD3+LAP and TD7. " "Distinct = distinct (adapter, configuration vector, bounds, fault kinds).")
+        "Additional plans: the routine (DDPG, TD3, TD3+LAP, TD7) is given RescaleAction(SimEnv) - a wrapper that changes the action space - and every action it passes to that environment must lie in that environment's action space (recording layer outside the wrapper). PETS with the reward optimum on an action bound (box excluding 0), a single elite and one CEM iteration per MPC call. The target-action monitor (C10.b/c) covers TD3, TD3+LAP and TD7. " "Distinct = distinct (adapter, configuration vector, bounds, fault kinds).")
 REAL = ["train_* routines", "sample_actions / sample_target_actions", "DeterministicTanhPolicy", "cross_entropy_method (inside PETS)"]
 STUB = ["environment (SimEnv, checks bounds)", "reward model (probe)", "sampler (recording)"]
 ASSUMPTIONS = ["tolerance 1 ulp of max|bound| for policy-driven actions, 0 for sampled (warm-up) actions",
                "'any network output however large' and key-determined noise form are pure clauses and not decided here"]
-TIERS = {"quick": {"runs": 152}, "thorough": {"runs": 2200}}
+TIERS = {"quick": {"runs": 168}, "thorough": {"runs": 2400}}
 REQUIRED = ["actions_in_bounds", "action_on_bound", "target_actions_in_bounds", "smoothing_within_noise_clip", "planner_candidates_in_bounds", "noise0_action_equals_policy", "noise_scale_samples", "other_bounds_trained_first_in_process"]
 REQUIRED_QUICK = ["actions_in_bounds", "target_actions_in_bounds", "planner_candidates_in_bounds"]
 CHUNK = 24  # TrainSim plans per fresh worker process
@@ -40,7 +40,29 @@ def make_planner_bound_plan(rng):
     return plan
 
 
+BASE2 = {"quick": 152, "thorough": 2200}  # second additive extension
+
+
+def make_wrapped_plan(rng):
+    """The routine is given RescaleAction(SimEnv): its action space is [-1, 1] while the unwrapped box is something else."""
+    name = rng.choice(["ddpg", "td3", "td3_lap", "td7"])
+    plan = trainplan.base_plan(rng, PROPERTY, ["C10.wrap"], name, T=rng.choice([12, 20]))
+    lo, hi = rng.choice([(-2.0, 2.0), (-5.0, 5.0), (0.5, 3.0), (-3.0, -0.5)])
+    plan["env"]["low"], plan["env"]["high"] = lo, hi
+    plan["env"]["rescale"] = True
+    c = plan["cfg"]
+    c["learning_starts"] = rng.choice([0, 2, 4])
+    c["exploration_noise"] = rng.choice([0.2, 1.0, 2.0])
+    c["init_scale"] = rng.choice([1.0, 30.0])
+    plan["supply_targets"] = False
+    plan["logger"] = False
+    plan["monitor"] = False
+    return plan
+
+
 def make_plan(rng, tier, index):
+    if index >= BASE2.get(tier, 10**9):
+        return make_wrapped_plan(rng)
     if index >= BASE.get(tier, 10**9):
         return make_planner_bound_plan(rng)
     name = ADAPTERS[index % len(ADAPTERS)]
